@@ -548,11 +548,40 @@ impl<'u> Driver<'u> {
                         }
                     }
                 }
+                // ... and through the address lookups, when the event is the one its address resolves to
+                let ev = u.ev(i);
+                let k = ev.kind();
+                if k.is_replaceable() {
+                    if let Ok(Some(e)) = st.find_replaceable_event(ev.pubkey(), k) {
+                        if e.as_bytes() == ev.as_bytes() {
+                            ptrs.push(e.as_bytes().as_ptr() as usize);
+                        }
+                    }
+                } else if k.is_parameterized_replaceable() {
+                    if let Ok(tags) = ev.tags() {
+                        if let Some(d) = tags.get_value(b"d") {
+                            let addr = Addr { kind: k, author: ev.pubkey(), d: d.to_vec() };
+                            if let Ok(Some(e)) = st.find_parameterized_replaceable_event(&addr) {
+                                if e.as_bytes() == ev.as_bytes() {
+                                    ptrs.push(e.as_bytes().as_ptr() as usize);
+                                }
+                            }
+                        }
+                    }
+                }
             }));
         }
+        let map_base = ptrs.first().map(|p| p.wrapping_sub(off as usize));
         for p in ptrs {
-            // all three denote the copy at `off` unless the event was stored more than once
-            let b = self.base_id(p.wrapping_sub(off as usize));
+            // all of them denote the copy at `off` unless the event was stored more than once
+            let base = p.wrapping_sub(off as usize);
+            if Some(base) != map_base && !self.offs.iter().any(|(o, j)| *j == i && Some(p.wrapping_sub(*o as usize)) == map_base) {
+                // a reference that does not point into the event map at all (some other memory the store owns): FOREIGN
+                // references are compared on every observation, whatever the map does
+                self.held.push((p, off, i, usize::MAX));
+                continue;
+            }
+            let b = self.base_id(base);
             self.held.push((p, off, i, b));
         }
     }
@@ -728,6 +757,16 @@ impl<'u> Driver<'u> {
         }
         let mut ok = 1;
         let mut checked = 0;
+        for (p, _off, i, b) in self.held.iter() {
+            if *b == usize::MAX {
+                let exp = self.u.ev(*i).as_bytes();
+                let got = unsafe { std::slice::from_raw_parts(*p as *const u8, exp.len()) };
+                checked += 1;
+                if got != exp {
+                    ok = 0;
+                }
+            }
+        }
         if cur.len() == 1 && cur[0] >= 0 {
             for (p, _off, i, b) in self.held.iter() {
                 if *b as i64 == cur[0] {
